@@ -144,13 +144,20 @@ func genC12(seed uint64, run int, tier string) Scenario {
 			if early < 0 && r.IntN(3) == 0 {
 				// completion patterns that this dialogue never shows
 				for i := between(r, 1, 2); i > 0; i-- {
-					op.Complete = append(op.Complete, fmt.Sprintf(`(?m)^never-shown-%d#\s*$`, r.IntN(1000)))
+					op.Complete = append(op.Complete, fmt.Sprintf(pick(r, `(?m)`, `(?im)`, `(?is)`)+`^never-shown-%d#\s*$`, r.IntN(1000)))
 				}
 			}
 			prev := exec
 			for e := 0; e < n; e++ {
 				hidden := e > 0 && r.IntN(3) == 0
 				input := g.cmd(pick(r, "clear", "copy", "answer", "yes"))
+				ownWord := ""
+				if !hidden && r.IntN(6) == 0 {
+					// the input names the very thing the device will ask about next ("copy a b" ->
+					// "Destination [b]?"): the awaited text also occurs in the input's own echo
+					ownWord = "dst" + word(r, lower, 3, 6) + fmt.Sprint(qn*10+e)
+					input += " " + ownWord
+				}
 				ev := EventSpec{Input: input, Hidden: hidden}
 				last := e == n-1
 				rep := &peer.Reply{}
@@ -179,11 +186,23 @@ func genC12(seed uint64, run int, tier string) Scenario {
 				} else {
 					qn++
 					marker := fmt.Sprintf("Q%d %s?", qn, word(r, lower, 2, 8))
+					if ownWord != "" {
+						marker = ownWord
+					}
 					q := &peer.Mode{Name: fmt.Sprintf("q:%d", qn), Prompt: word(r, sessAlpha, 0, 10) + marker + pick(r, "", " ", " [y/n]: ", ": "), Cmds: map[string]*peer.Reply{}}
 					q.NoEcho = false
 					sc.Dev.Modes = append(sc.Dev.Modes, q)
 					rep.Next = q.Name
 					ev.Response = regexp.QuoteMeta(marker)
+					if r.IntN(5) == 0 {
+						// the device first says something that differs from the awaited text only in
+						// case, pauses, and then asks
+						look := strings.ToLower(marker)
+						if look == marker {
+							look = strings.ToUpper(marker)
+						}
+						rep.Out = append(rep.Out, peer.Tok{S: g.nl + "(" + look + ")"}, peer.Tok{S: g.nl, Delay: Micro(sc.ReadDelayUS * int64(between(r, 5, 40)))})
+					}
 					op.Marks = append(op.Marks, marker)
 					if e == early {
 						// instead of the next question the device ends the dialogue
@@ -396,10 +415,12 @@ func runC12(env *Env, s Scenario) {
 				env.Probe("dialogue-finished-early")
 			}
 			// writes per event: input, return
-			var inputs []simnet.WriteRec
+			var inputs, returns []simnet.WriteRec
 			for _, w := range ws {
 				if string(w.B) != "\n" {
 					inputs = append(inputs, w)
+				} else if len(returns) < len(inputs) {
+					returns = append(returns, w)
 				}
 			}
 			if len(inputs) != nev {
@@ -415,7 +436,12 @@ func runC12(env *Env, s Scenario) {
 				if e == 0 {
 					continue
 				}
-				// input e only after the marker of event e-1 was delivered
+				// input e only after the marker of event e-1 was delivered -- the marker in the
+				// device's answer, i.e. behind the echo of input e-1 (which may contain the same
+				// text): everything emitted before the return of event e-1 went out is echo
+				if len(returns) >= e && returns[e-1].Emitted > from {
+					from = returns[e-1].Emitted
+				}
 				idx := bytes.Index(stream[from:], []byte(op.Marks[e-1]))
 				if idx < 0 {
 					env.Res.HarnessError = fmt.Sprintf("marker %q not found in the device stream", op.Marks[e-1])
